@@ -171,6 +171,73 @@ def component(chk, prog):
     return En
 
 
+def power_step(chk, prog):
+    """C02: with the invariant every pass re-establishes (t = E p), one pass maps the loading p to a unit vector proportional to  a p + b E'E p  with
+    b != 0: the fixed points of the iteration are exactly the eigenvectors of the cross-product matrix, and the score norm t't at a fixed point is the
+    eigenvalue (p'E'Ep with p'p = 1)"""
+    R = chk.rule('PCA.power-step', 'starting a pass from a unit loading p with t = E p, the loading the pass leaves is unit(E\'E p) -- a step of the power iteration on '
+                 'E\'E, homogeneous in E, so that neither the fixed points nor the speed depend on the units of the data -- and the score it leaves is E times that loading')
+    f = prog.funcs.get('PCA')
+    if f is None or f.body is None:
+        chk.broke('PCA not found')
+        return
+    loops = [n for n in walk(f.body) if n.get('kind') in ('WhileStmt', 'DoStmt') and
+             any(m.get('kind') == 'CallExpr' and callee_name(m) in ('MT_MatrixDVectorDotProduct', 'MatrixDVectorDotProduct') for m in walk(n))]
+    if len(loops) != 1:
+        chk.broke('PCA: the NIPALS iteration was not found as a single while loop')
+        return
+    loop = loops[0]
+    tl = Tail(prog, f)
+    _alloc_sizes(f, tl)
+    tl.ignore_out = lambda arr: 'dmodx' in arr
+    fw = [m for m in walk(loop) if m.get('kind') == 'CallExpr' and callee_name(m) in ('MT_MatrixDVectorDotProduct', 'MatrixDVectorDotProduct')]
+    try:
+        En, pn, tn = (tl.nm(x) for x in call_args(fw[0]))
+    except NotUnderstood as e:
+        chk.broke('PCA: %s' % e)
+        return
+    P0 = 'unit(p0)'                                    # a unit base vector (N() is 1 for names of this form)
+    tl.mat[En] = {('M', En): ONE}
+    tl.vec[pn] = {P0: ONE}
+    tl.vec[tn] = tl.prod(tl.mat[En], {P0: ONE}, False)
+    for m in walk(loop):
+        if m.get('kind') == 'CallExpr' and callee_name(m) in ('DVectorCopy', 'calcConvergence'):
+            for a in call_args(m):
+                try:
+                    tl.vec.setdefault(tl.nm(a), {'?' + tl.nm(a): ONE})
+                except NotUnderstood:
+                    pass
+    try:
+        live, exits = exec_paths(tl.clone(), [kids(loop)[-1]])
+    except NotUnderstood as e:
+        chk.broke('PCA: the iteration is not understood: %s' % e)
+        return
+    Ep = '%s*%s' % (En, P0)
+    EEp = "%s'*%s" % (En, Ep)
+    for st in live + exits:
+        pv = expand(st.vec[pn], st.defs)
+        tv = st.vec[tn]
+        where = f.unit.where(loop)
+        bases = set(pv)
+        ok = bases == {EEp} and not pv[EEp].is_zero()
+        mixed = bases == {P0, EEp} and not pv[EEp].is_zero()
+        if ok and vsame(tv, st.prod({('M', En): ONE}, st.vec[pn], False)) and vdot(st.vec[pn], st.vec[pn]).same(ONE):
+            chk.instance(R, '%s PCA: p <- unit(E\'E p), t <- E p' % where)
+        elif mixed:
+            chk.instance(R, '%s PCA: from t = E p the pass leaves p proportional to %s' % (where, vshow(pv)[:200]), 'refuted')
+            chk.violation(Finding('PCA.power-step', rel(f.file), f.name, 'shifted-power-step', where,
+                                  'PCA: the loading vector is not reset before the accumulating product E\'t, so one pass maps p to unit(p + E\'E p / 1) -- a step of '
+                                  'the power iteration on I + E\'E, not on E\'E. Its fixed points are still eigenvectors, but its contraction rate (1 + l2)/(1 + l1) '
+                                  'depends on the units of the data: for small-magnitude, centred-only data the iterate hardly moves, the relative convergence test '
+                                  'fires at once and the loading returned is not the principal axis to the accuracy of the documented criterion'))
+        else:
+            chk.instance(R, '%s PCA: from t = E p the pass leaves p = %s, t = %s' % (where, vshow(pv)[:160], vshow(tv)[:120]), 'refuted')
+            chk.violation(Finding('PCA.power-step', rel(f.file), f.name, 'power-step', where,
+                                  'PCA: started from a unit loading p with t = E p, one pass leaves the loading %s (score %s): not a unit vector a p + b E\'E p with '
+                                  'b != 0 followed by t = E p, so the fixed points of the iteration are not the eigenvectors of E\'E' % (vshow(pv)[:200], vshow(tv)[:120])))
+        break
+
+
 def variance(chk, prog, En):
     R = chk.rule('PCA.variance', 'ss is the sum of the squares of every cell of the preprocessed matrix, taken before any deflation; '
                  'varexp[i] = eval[i] / ss * 100 for every component')
@@ -436,9 +503,10 @@ def back_transform(chk, prog):
             probs.append(('sum-range', c1, 'the sum runs over pc in [%s, %s), not over the first npc components' % (l[1], l[2])))
         if str(lv1[i1][2]) != '$0->row' or str(lv1[j1][2]) != '$1->row' or str(lv1[i1][1]) != '0' or str(lv1[j1][1]) != '0':
             probs.append(('sum-cells', c1, 'the product is not formed for every object and every variable'))
-    rz = [n for n in walk(f.body) if n.get('kind') == 'CallExpr' and callee_name(n) == 'ResizeMatrix' and f.unit.text(call_args(n)[0]).strip() == f.params[5]['name']]
-    if not rz:
-        probs.append(('start', c1, 'the result is not zero-filled (ResizeMatrix) before the sum is accumulated into it'))
+    from .plscheck import zero_filled_first
+    if not zero_filled_first(f, f.params[5]['name'], c1.node):
+        probs.append(('start', c1, 'the result is not zero-filled (ResizeMatrix, unconditionally, before the loop) when the sum is accumulated into it: '
+                      'an output that already has the right shape keeps its old content'))
     rest = [(g, cs, lp) for g, cs, lp in groups if g]
 
     def form(c, arr, mode):
